@@ -169,7 +169,12 @@ pub extern "C" fn h_c12_api() {
     let (u1, u2) = two_units();
     let f1 = u1.to_base_unit_representation().1.to_f64();
     let f2 = u2.to_base_unit_representation().1.to_f64();
-    let differ_in_size = f1 != f2;
+    // "differ in size" is decided from the definition trees alone (exact rational arithmetic in the
+    // plan, cfg 2), not by the implementation's own factor arithmetic, when the plan could compute it
+    let differ_in_size = match cfg(2) {
+        Some(s) => s.trim() == "1",
+        None => f1 != f2,
+    };
     let a = f64_(0);
     let b = f64_(1);
     let mut s = VmSession::new();
